@@ -36,7 +36,7 @@ var rdDebug = os.Getenv("VERIF_RD_DEBUG")
 
 const (
 	rdStallAfter = 1500 * time.Millisecond // no message for this long: out=stall
-	rdQuiet      = 100 * time.Millisecond  // broker sees nothing for this long: the reader goroutine is parked
+	rdQuiet      = 200 * time.Millisecond  // broker sees nothing for this long: the reader goroutine is parked
 	rdSettleMax  = 1200 * time.Millisecond
 	rdHwmSleep   = 5 * time.Millisecond
 	rdSpinSleep  = 10 * time.Millisecond // pacing of the 4th, 5th.. fetch in a row of one offset on one connection
@@ -45,7 +45,7 @@ const (
 
 type rdFault struct {
 	Idx  int
-	Kind string // cut err6 err3 err7 err1 hang move
+	Kind string // cut err6 err3 err7 err1 hang move err1h (= err1, and the ListOffsets the reader sends next is never answered)
 	K    int    // cut only
 }
 
@@ -144,6 +144,7 @@ type rdBroker struct {
 	last       time.Time     // last time the broker heard from the client
 	lastAtHwm  bool          // the last thing heard was a fetch at hwm (the reader idles)
 	hang       bool          // a hang is pending (cleared by the next connection)
+	offHang    bool          // the next ListOffsets request is not answered
 	trace      func(string, ...interface{})
 }
 
@@ -172,6 +173,13 @@ func newRdBroker(sc *rdScenario) *rdBroker {
 			return rb.first, 0
 		}
 		return sc.Hwm, 0
+	}
+	rb.b.OnOffsetHang = func(int) bool {
+		rb.mu.Lock()
+		defer rb.mu.Unlock()
+		h := rb.offHang
+		rb.offHang = false
+		return h
 	}
 	rb.b.OnFetch = rb.onFetch
 	return rb
@@ -256,6 +264,11 @@ func (rb *rdBroker) answer(q FetchReq) (FetchResp, time.Duration) {
 		case "move":
 			rb.leader++
 			return FetchResp{Err: 6, Hwm: sc.Hwm, Cut: -1}, pause
+		case "err1h":
+			// OffsetOutOfRange, and the broker stops answering on this connection: the reader's ListOffsets (is the
+			// offset before the first or after the last?) runs into its 10 s deadline; then a new connection
+			rb.offHang, rb.hang = true, true
+			return FetchResp{Err: 1, Hwm: sc.Hwm, Cut: -1}, 0
 		default: // err<c>
 			c, _ := strconv.Atoi(f.Kind[3:])
 			return FetchResp{Err: int16(c), Hwm: sc.Hwm, Cut: -1}, pause
@@ -425,7 +438,7 @@ func runReader(sc *rdScenario) string {
 			outcome = "runaway"
 			break
 		}
-		ctx, cancel := context.WithDeadline(context.Background(), lastMsg.Add(rdStallAfter))
+		ctx, cancel := context.WithDeadline(context.Background(), lastMsg.Add(sc.stallAfter()))
 		if expectNone {
 			go func() {
 				select {
@@ -489,6 +502,16 @@ func runReader(sc *rdScenario) string {
 			cl = fmt.Sprintf("ok-but-setoffset-after-close:%v", err)
 		}
 		ccancel()
+		// every connection the fetch loop opened is over: each way out of readLoop closes the connection (directly, or
+		// Batch.Close has), and Close ends the loop.  (The broker notices a closed connection with its next read.)
+		opened, over := rb.b.Conns()
+		for t0 := time.Now(); over != opened && time.Since(t0) < time.Second; {
+			time.Sleep(2 * time.Millisecond)
+			opened, over = rb.b.Conns()
+		}
+		if cl == "ok" && over != opened {
+			cl = fmt.Sprintf("ok-but-%d-of-%d-connections-left-open", opened-over, opened)
+		}
 	case <-time.After(3 * time.Second):
 		cl = "hung"
 	}
@@ -607,6 +630,17 @@ func genReaderScenario(r *rand.Rand, ver int) *rdScenario {
 	return sc
 }
 
+// stallAfter: how long the application waits for the next message before the run counts as stalled.  A broker that
+// stops answering a ListOffsets costs the reader its fixed 10 s deadline (reader.go readOffsets).
+func (sc *rdScenario) stallAfter() time.Duration {
+	for _, f := range sc.Faults {
+		if f.Kind == "err1h" {
+			return 13 * time.Second
+		}
+	}
+	return rdStallAfter
+}
+
 func readerCorpus() (scs []*rdScenario) {
 	data := func(base, last int64, offs ...int64) Item {
 		return Item{Format: 2, Base: base, Last: last, Recs: recs(offs...)}
@@ -616,6 +650,9 @@ func readerCorpus() (scs []*rdScenario) {
 		scs = append(scs, &rdScenario{Ver: ver, Start: start, Q: q, Budgets: budgets, Faults: faults, TruncIdx: ti, TruncN: tn,
 			Sets: sets, Items: log3, Hwm: 115})
 	}
+	// first, because it takes the reader's 10 s ListOffsets deadline: OffsetOutOfRange on the second data fetch, then
+	// the broker is silent on that connection (seeded/C09-m8: without the deadline the fetcher never comes back)
+	mk(5, "first", 100, []int{1}, []rdFault{{Idx: 1, Kind: "err1h"}}, -1, 0, nil)
 	for _, ver := range []int{2, 5, 10} {
 		// plain runs
 		mk(ver, "first", 100, []int{1 << 20}, nil, -1, 0, nil)
